@@ -4,6 +4,8 @@ import (
 	"context"
 	"errors"
 	"sync"
+
+	"github.com/aperturerobotics/util/verifhook"
 )
 
 // Broadcast implements notifying waiters via a channel.
@@ -19,18 +21,26 @@ type Broadcast struct {
 // broadcast closes the wait channel, if any.
 // getWaitCh returns a channel that will be closed when broadcast is called.
 func (c *Broadcast) HoldLock(cb func(broadcast func(), getWaitCh func() <-chan struct{})) {
+	verifhook.Point("broadcast.lock", c)
+	defer verifhook.Point("broadcast.unlocked", c)
 	c.mtx.Lock()
+	verifhook.Enter(c)
 	defer c.mtx.Unlock()
+	defer verifhook.Leave(c)
 	cb(c.broadcastLocked, c.getWaitChLocked)
 }
 
 // TryHoldLock attempts to lock the mutex and call the callback.
 // It returns true if the lock was acquired and the callback was called, false otherwise.
 func (c *Broadcast) TryHoldLock(cb func(broadcast func(), getWaitCh func() <-chan struct{})) bool {
+	verifhook.Point("broadcast.lock", c)
 	if !c.mtx.TryLock() {
 		return false
 	}
+	defer verifhook.Point("broadcast.unlocked", c)
+	verifhook.Enter(c)
 	defer c.mtx.Unlock()
+	defer verifhook.Leave(c)
 	cb(c.broadcastLocked, c.getWaitChLocked)
 	return true
 }
@@ -40,14 +50,19 @@ func (c *Broadcast) TryHoldLock(cb func(broadcast func(), getWaitCh func() <-cha
 func (c *Broadcast) HoldLockMaybeAsync(cb func(broadcast func(), getWaitCh func() <-chan struct{})) {
 	holdBroadcastLock := func(lock bool) {
 		if lock {
+			verifhook.Point("broadcast.lock", c)
 			c.mtx.Lock()
 		}
+		defer verifhook.Point("broadcast.unlocked", c)
+		verifhook.Enter(c)
 		// use defer to catch panic cases
 		defer c.mtx.Unlock()
+		defer verifhook.Leave(c)
 		cb(c.broadcastLocked, c.getWaitChLocked)
 	}
 
 	// fast path: lock immediately
+	verifhook.Point("broadcast.lock", c)
 	if c.mtx.TryLock() {
 		holdBroadcastLock(false)
 	} else {
